@@ -35,6 +35,17 @@ class IpH(explore.Harness):
         self.loop, self.net = self.rig.loop, self.rig.net
         self.rig.acc.handler = self._handler
         self.rig.acc.fixed_eph = bool(p.get("fixed_acc_eph"))
+        if p.get("slow_close"):
+            # the peer has stopped reading: a connection the controller closes reports its loss only when the harness says so ("close-done"),
+            # and until then the old protocol object is still installed
+            wire0 = self.rig.wire
+
+            def wire(conn):
+                conn.slow_close = True
+                return wire0(conn)
+
+            self.rig.wire = wire
+            self.ALPH = self.ALPH + ["close-done"]
         self.queue = {}  # cid -> list of genuine frames not yet delivered: (seq, bytes)
         self.delivered = {}  # cid -> list of (seq, bytes)
         self.genuine = {}  # digest(frame[2:]) -> (cid, seq)
@@ -103,6 +114,9 @@ class IpH(explore.Harness):
             elif a == "timer":
                 if busy and self.loop.next_timer() is not None:
                     m.append(a)
+            elif a == "close-done":
+                if any(getattr(c.transport, "_lost_pending", False) for c in self.net.conns):
+                    m.append(a)
             elif a == "odd-frame":
                 # an authentic frame whose plaintext the HTTP layer cannot take (a response nobody waits for, an unknown start line)
                 if cur and not self.queue.get(cur.cid) and not self.part.get(cur.cid) and getattr(self, "n_odd", 0) < 2:
@@ -116,7 +130,9 @@ class IpH(explore.Harness):
         label = self.menu()[i]
         self.depth_used += 1
         cur = self._cur()
-        if label == "odd-frame":
+        if label == "close-done":
+            next(c for c in self.net.conns if getattr(c.transport, "_lost_pending", False)).transport.complete_close()
+        elif label == "odd-frame":
             self.n_odd = getattr(self, "n_odd", 0) + 1
             sess = cur.session
             plain = (b"BOGUS/9.9 200 OK\r\n\r\n", ipacc.http_response(200, b"{}"))[self.n_odd % 2]
@@ -218,7 +234,7 @@ class IpH(explore.Harness):
         from vt import canon as _c
 
         st = (st, _c.canon(pr, depth=2, skip=("connection", "loop", "transport", "encryptor", "decryptor", "c2a_key", "a2c_key")) if pr is not None else None)
-        return (st, cur.cid if cur else None, tuple(sorted(self.part.items())), tuple(len(v) for v in self.queue.values()), tuple((t.done(), t.cancelled()) for t in self.tasks), len(self.net.conns),
+        return (st, cur.cid if cur else None, tuple(sorted(self.part.items())), tuple(len(v) for v in self.queue.values()), tuple((t.done(), t.cancelled()) for t in self.tasks), len(self.net.conns), tuple(bool(getattr(c.transport, "_lost_pending", False)) for c in self.net.conns),
                 tuple(sorted(round(h._when - self.loop.time(), 6) for h in self.loop._scheduled if not h._cancelled)), len(self.log.events), _c.tasks_sig(self.loop))
 
     def outcome(self):
@@ -304,6 +320,9 @@ def run(ctx):
     # controller's own fresh key has to keep (key, nonce) pairs apart across the reconnects that failures cause
     p = dict(transport="ip", seed=ctx.seed, fixed_acc_eph=True)
     work += [(p, r, depth + (0 if quick else 1)) for r in explore.roots(lambda: make(p), 2)]
+    # ... and against a peer that has stopped reading (a closed connection reports its loss late): requests made in between
+    p2 = dict(transport="ip", seed=ctx.seed, slow_close=True)
+    work += [(p2, r, depth + (0 if quick else 1)) for r in explore.roots(lambda: make(p2), 2)]
     ctx.bounds.update(depth=depth, transports=list(HARNESSES))
     ctx.pmap(_work, work)
     import itertools
